@@ -519,7 +519,9 @@ func (s *socket) clearTransport() {
 	// ensure transport won't stay open
 	s.Transport().Close()
 
-	utils.ClearTimeout(s.pingTimeoutTimer.Load())
+	// the heartbeat belongs to the session, not to the transport: a deadline
+	// that is armed when the transport is replaced by an upgrade stays armed
+	// (OnClose cancels both heartbeat timers itself)
 }
 
 // Called upon transport considered closed.
